@@ -211,12 +211,50 @@ def subprocess_case(args) -> dict:
     return out
 
 
+def config_history_case(args):
+    """(iv) the configuration is part of the current state too: in ONE process the same project root is linted with a
+    sequence of configurations (top-level ignore list and a threshold changing between runs, each run with a new
+    Orchestrator as the CLI/API create them); every run must equal a run whose process-wide caches were dropped first"""
+    import random
+    idx, seed, root = args
+    rng = random.Random(seed)
+    from src.orchestrator.core import Orchestrator
+    proj = Path(root) / f"cfg{idx}"
+    out = {"errors": [], "steps": []}
+    try:
+        files = gen_project(rng, rng.randint(3, 6), dirs=("", "legacy", "pkg"))
+        write_project(proj, files, DEFAULT_CFG)
+        (proj / ".git").mkdir(exist_ok=True)
+        rels = [rel for rel, _t in files]
+        core._reset_singletons()
+        for step in range(rng.randint(3, 5)):
+            ignore = rng.sample(rels, rng.randint(0, 2)) + (["legacy/*"] if rng.random() < 0.3 else [])
+            depth = rng.choice([2, 3, 4, 6])
+            cfg = DEFAULT_CFG + f"nesting:\n  max_nesting_depth: {depth}\n" + ("ignore:\n" + "".join(f'  - "{p_}"\n' for p_ in ignore) if ignore else "")
+            (proj / ".thailint.yaml").write_text(cfg)
+            long_lived = sorted(tok(v) for v in Orchestrator(project_root=proj).lint_directory(proj))
+            core._reset_singletons()
+            fresh = sorted(tok(v) for v in Orchestrator(project_root=proj).lint_directory(proj))
+            # leave the caches as a long-lived process would have them after the *first* of the two runs: run it again without reset
+            core._reset_singletons()
+            Orchestrator(project_root=proj).lint_directory(proj)
+            out["steps"].append({"ignore": ignore, "depth": depth, "same": long_lived == fresh, "n_long": len(long_lived), "n_fresh": len(fresh),
+                                 "extra": [x[:160] for x in long_lived if x not in fresh][:2], "missing": [x[:160] for x in fresh if x not in long_lived][:2]})
+    except Exception as exc:  # noqa: BLE001
+        out["errors"].append(f"{type(exc).__name__}: {exc}")
+    finally:
+        shutil.rmtree(proj, ignore_errors=True)
+    return out
+
+
 def run(tier: str, seed: int, st: core.ProofStatus) -> core.Result:
     res = core.Result()
     res.rule = ("(i) seeded histories (4-10 steps: Linter.lint on the directory or a file, edits that add/remove duplicate blocks, "
                 "deletions, re-creations) on ONE long-lived Linter, each lint step compared with a fresh Linter and with the Lean "
                 "history model fed with fresh per-file/finalize tables; (ii) permutations of the file list; (iii) subprocess runs "
-                "under 3 PYTHONHASHSEED values with project-directory and TMPDIR snapshots (sequential/parallel, DRY memory/tempfile). "
+                "under 3 PYTHONHASHSEED values with project-directory and TMPDIR snapshots (sequential/parallel, DRY memory/tempfile); "
+                "(iv) configuration histories: one process lints the same root under 3-5 successive configurations (ignore list, nesting limit) and "
+                "every run must equal the run of a process whose caches were dropped. "
                 "Non-trivial history = at least two lint steps whose outputs differ; distinct by op sequence")
     rng = core.sub_rng(seed, PROP, tier)
     nh, npm, nsp = (64, 16, 6) if tier == "quick" else (1200, 300, 60)
@@ -225,8 +263,23 @@ def run(tier: str, seed: int, st: core.ProofStatus) -> core.Result:
         hist = core.pmap(history_case, [(i, rng.randrange(1 << 30), str(root)) for i in range(nh)], procs=16)
         perms = core.pmap(perm_case, [(i, rng.randrange(1 << 30), str(root)) for i in range(npm)], procs=16)
         subs = core.pmap(subprocess_case, [(i, rng.randrange(1 << 30), str(root)) for i in range(nsp)], procs=8)
+        cfgh = core.pmap(config_history_case, [(i, rng.randrange(1 << 30), str(root)) for i in range(max(8, nh // 4))], procs=16)
     finally:
         shutil.rmtree(root, ignore_errors=True)
+    for i, ch in enumerate(cfgh):
+        res.evaluations += 1
+        res.bump("config_history_steps", len(ch["steps"]))
+        if ch["errors"]:
+            res.disagreements.append(core.Disagreement(case={"kind": "config-history", "index": i}, impl=ch["errors"], model=None, spec=None, property_fails=False, note=ch["errors"][0][:300]))
+            continue
+        bad = [(k, s_) for k, s_ in enumerate(ch["steps"]) if not s_["same"]]
+        if bad:
+            k, s_ = bad[0]
+            res.disagreements.append(core.Disagreement(case={"kind": "config-history", "steps": [{"ignore": x["ignore"], "depth": x["depth"]} for x in ch["steps"][: k + 1]]},
+                                                       impl={"long_lived": s_["n_long"], "extra": s_["extra"], "missing": s_["missing"]}, model=None, spec={"fresh": s_["n_fresh"]},
+                                                       property_fails=True,
+                                                       note=f"configuration step {k} (ignore {s_['ignore']}, max depth {s_['depth']}) in a process that linted the same root before: "
+                                                            f"{s_['n_long']} violations, a fresh process reports {s_['n_fresh']}"))
     drv = core.Driver()
     for i, h in enumerate(hist):
         res.evaluations += 1
